@@ -146,22 +146,29 @@ def _loop_kind(F, m, comp):
     if breaks_all(iter_blocks):
         return ("iter", iter_blocks)
     if breaks_all(cas_blocks):
-        # the loop must leave on the CAS's Ok result: a switch on discr(result of that CAS) whose Ok(0) edge exits
+        # the loop must leave on the CAS's Ok result: a switch on discr(result of that CAS) whose Ok (discriminant 0) edge
+        # leaves the cycle without passing the CAS again. The Ok edge may be written as a value edge (`match`) or as the
+        # otherwise edge of `while let Err(..) = cas` (values = [1]).
         for b in comp:
             t = m.term(b)
             if t["k"] != "switch":
                 continue
             ex = [deep_strip(e) for e in fl.term_operand(b, t["d"])]
             for e in ex:
-                if e[0] == "discr" and strip(e[1])[0] == "call" and strip(e[1])[1] in cas_blocks:
-                    for v, tgt in t["vals"]:
-                        if v == 0 and tgt not in comp:
-                            return ("cas", cas_blocks)
-                        if v == 0:
-                            # Ok edge stays in SCC only if it then leaves without passing the CAS again
-                            r = cfg.reachable(m, tgt, avoid=set(cas_blocks))
-                            if not (r & set(cas_blocks)) and (r - set(comp)):
-                                return ("cas", cas_blocks)
+                if not (e[0] == "discr" and strip(e[1])[0] == "call" and strip(e[1])[1] in cas_blocks):
+                    continue
+                vals = {v: tgt for v, tgt in t["vals"]}
+                if 0 in vals:
+                    ok_tgt = vals[0]
+                elif set(vals) == {1}:
+                    ok_tgt = t["else"]
+                else:
+                    continue
+                if ok_tgt not in comp:
+                    return ("cas", cas_blocks)
+                r = cfg.reachable(m, ok_tgt, avoid=set(cas_blocks))
+                if not (r & set(cas_blocks)) and (r - set(comp)):
+                    return ("cas", cas_blocks)
         return None
     return None
 
